@@ -105,3 +105,18 @@ def yContains (c x : Y) : Bool :=
 /-- `float(y)` of a numeric YAML value -/
 def yfloat (y : Y) : Rat := y.toRat?.getD 0
 end NASim.PyRt
+
+namespace NASim.PyRt
+open NASim.Load
+/-- a validated list of subnet sizes (positive `int`s) as naturals; `sum` of it -/
+def natsOf (l : List Y) : List Nat := l.map fun y => (y.exactInt?.getD 0).toNat
+def sumY (l : List Y) : Nat := (natsOf l).foldl (· + ·) 0
+/-- a validated topology (rows of 0 / 1) as a matrix of integers -/
+def topoOf (rows : List Y) : List (List Int) := rows.map fun r => (listOf r).map fun c => c.intLike?.getD 0
+/-- `d[addr] = value` on the sensitive-host dictionary (Python's `dict`: an existing key keeps its position) -/
+def sensSet (d : List ((Nat × Nat) × Rat)) (a : Int × Int) (v : Y) : List ((Nat × Nat) × Rat) :=
+  dictSet d (a.1.toNat, a.2.toNat) (v.toRat?.getD 0)
+/-- `d[pair] = rule` on the subnet-firewall dictionary -/
+def fwSet (d : List ((Int × Int) × Y)) (a : Int × Int) (v : Y) : List ((Int × Int) × Y) :=
+  if d.any (fun p => p.1 == a) then d.map (fun p => if p.1 == a then (a, v) else p) else d ++ [(a, v)]
+end NASim.PyRt
